@@ -14,6 +14,8 @@ model.  Two clauses are violated by the unchanged tree; their negations are prov
 `Witness.lean` and the provable parts are the `_partial` theorems below.
 -/
 import CaddyModel.C07.MatchLemmas
+import CaddyModel.C07.GlobLemmas
+import CaddyModel.C07.GlobFuel
 import CaddyModel.C07.Witness
 
 namespace CaddyModel.C07
@@ -239,5 +241,25 @@ example : (matchFile wFS (str "/srv") [⟨[], true, []⟩] false (str "/x/../a.t
     globMatch (globSafe p) name = some true → name = p
 The containment clause of the property does not depend on it (`matcher_candidates_contained`).
 -/
+
+/-- **glob_from_request_partial.** For a request text without a backslash (decidable exclusion),
+    the text escaped by `globSafeRepl` is a pattern that matches exactly that text: no `*`, `?`
+    or `[…]` of the request is ever live, and the pattern is never malformed. -/
+theorem glob_from_request_partial (p name : Bytes) (h : (92 : UInt8) ∉ p) :
+    globMatch (globSafe p) name = some (decide (name = p)) := globMatch_globSafe p name h
+
+example : (92 : UInt8) ∉ str "a*b[c-d]?^-]" := by decide
+example : globMatch (globSafe (str "a*b[c-d]?")) (str "a*b[c-d]?") = some true := by decide
+example : globMatch (globSafe (str "a*")) (str "ab") = some false := by decide
+example : globMatch (str "a*") (str "ab") = some true := by decide
+
+/-! ## model sanity: fuel
+
+`globMatch_never_runs_out_of_fuel`, `chunkMatch_never_runs_out_of_fuel` and
+`fsGlob_never_runs_out_of_fuel` (GlobFuel.lean): above the initial budget the results of the
+fuelled loops do not depend on the fuel, so `none` from `globMatch` always means
+`ErrBadPattern`.  They are listed in `Audit.lean`. -/
+
+example : globMatch (str "[a-") (str "a") = none ∧ matchLoop 1000 (str "[a-") (str "a") = none := by decide
 
 end CaddyModel.C07
